@@ -9,16 +9,26 @@ package c15
 
 import (
 	"bytes"
+	"crypto/sha1"
 	"crypto/sha256"
+	"crypto/sha512"
 	"fmt"
 	"hash"
+	"math/big"
 	"os"
 	"regexp"
 	"strconv"
 	"strings"
 	"testing"
 
+	fr381 "github.com/consensys/gnark-crypto/ecc/bls12-381/fr"
+	mimc381 "github.com/consensys/gnark-crypto/ecc/bls12-381/fr/mimc"
+	frbn254 "github.com/consensys/gnark-crypto/ecc/bn254/fr"
 	"github.com/consensys/gnark-crypto/ecc/bn254/fr/mimc"
+	fr633 "github.com/consensys/gnark-crypto/ecc/bw6-633/fr"
+	mimc633 "github.com/consensys/gnark-crypto/ecc/bw6-633/fr/mimc"
+	fr761 "github.com/consensys/gnark-crypto/ecc/bw6-761/fr"
+	mimc761 "github.com/consensys/gnark-crypto/ecc/bw6-761/fr/mimc"
 	fiatshamir "github.com/consensys/gnark-crypto/fiat-shamir"
 
 	"verif/harness/internal/ref"
@@ -30,27 +40,71 @@ func TestMain(m *testing.M) { rep.Main(m) }
 // ---- hashes ------------------------------------------------------------------------------------
 
 type hashKind struct {
-	name  string
-	lib   func() hash.Hash // instance handed to the library transcript
-	model ref.ChunkHash    // black-box hash of the model (fresh state per call)
+	name   string
+	lib    func() hash.Hash // instance handed to the library transcript
+	model  ref.ChunkHash    // black-box hash of the model (fresh state per call)
+	digest int              // digest size in bytes
+	block  int              // 0: byte-stream hash; else the block size of an algebraic hash whose Write accepts the
+	// empty string, fewer than block bytes (left-padded) or whole canonical blocks
+	q *big.Int // modulus of the field of an algebraic hash
 }
 
-// mimcChunks feeds each chunk with its own Write into a *fresh* MiMC instance. MiMC itself is decided by
-// C14; here it is a black box. The chunks are always ones MiMC accepts (empty, shorter than a block, or
-// whole canonical blocks) — anything else is a harness bug, hence the panic.
-func mimcChunks(chunks [][]byte) []byte {
-	h := mimc.NewMiMC()
-	for _, c := range chunks {
-		if _, err := h.Write(c); err != nil {
-			panic("harness: the model was fed a chunk MiMC refuses: " + err.Error())
+func (h hashKind) field() bool { return h.block > 0 }
+
+// digestClass is the mandatory coverage class of the hash: the transcript must not assume a digest size.
+func (h hashKind) digestClass() string {
+	switch {
+	case h.digest < 32:
+		return "digest:<32"
+	case h.digest == 32:
+		return "digest:=32"
+	}
+	return "digest:>32"
+}
+
+// fieldChunks feeds each chunk with its own Write into a *fresh* instance of an algebraic hash. The hash
+// itself is decided by C14; here it is a black box. The chunks are always ones it accepts (empty, shorter
+// than a block, or whole canonical blocks) — anything else is a harness bug, hence the panic.
+func fieldChunks(newH func() hash.Hash) ref.ChunkHash {
+	return func(chunks [][]byte) []byte {
+		h := newH()
+		for _, c := range chunks {
+			if _, err := h.Write(c); err != nil {
+				panic("harness: the model was fed a chunk the hash refuses: " + err.Error())
+			}
+		}
+		return h.Sum(nil)
+	}
+}
+
+func mimcBn254() hash.Hash  { return mimc.NewMiMC() }
+func mimcBls381() hash.Hash { return mimc381.NewMiMC() }
+func mimcBw633() hash.Hash  { return mimc633.NewMiMC() }
+func mimcBw761() hash.Hash  { return mimc761.NewMiMC() }
+
+var mimcChunks = fieldChunks(mimcBn254)
+
+// hashes[0] is SHA-256 and hashes[1] MiMC over bn254 (other files index them); the rest spans digest sizes
+// 20..64 bytes: a transcript must work with any hash.Hash.
+var hashes = []hashKind{
+	{"sha256", sha256.New, ref.SHA256Chunks, 32, 0, nil},
+	{"mimc", mimcBn254, mimcChunks, 32, mimc.BlockSize, frbn254.Modulus()},
+	{"sha1", sha1.New, ref.StdChunks(sha1.New), 20, 0, nil},
+	{"sha224", sha256.New224, ref.StdChunks(sha256.New224), 28, 0, nil},
+	{"sha384", sha512.New384, ref.StdChunks(sha512.New384), 48, 0, nil},
+	{"sha512", sha512.New, ref.StdChunks(sha512.New), 64, 0, nil},
+	{"mimc_bls12381", mimcBls381, fieldChunks(mimcBls381), 32, mimc381.BlockSize, fr381.Modulus()},
+	{"mimc_bw6633", mimcBw633, fieldChunks(mimcBw633), 40, mimc633.BlockSize, fr633.Modulus()},
+	{"mimc_bw6761", mimcBw761, fieldChunks(mimcBw761), 48, mimc761.BlockSize, fr761.Modulus()},
+}
+
+func hashByName(n string) hashKind {
+	for _, h := range hashes {
+		if h.name == n {
+			return h
 		}
 	}
-	return h.Sum(nil)
-}
-
-var hashes = []hashKind{
-	{"sha256", func() hash.Hash { return sha256.New() }, ref.SHA256Chunks},
-	{"mimc", func() hash.Hash { return mimc.NewMiMC() }, mimcChunks},
+	panic("unknown hash " + n)
 }
 
 func selected(name string) bool {
@@ -103,11 +157,17 @@ func evString(m int) string {
 	return strings.Join(s, "+")
 }
 
+// bnd is a caller-owned buffer of which the window buf[lo:hi] was handed to Bind.
+type bnd struct {
+	buf    []byte
+	lo, hi int
+}
+
 type pair struct {
 	lib   *fiatshamir.Transcript
 	mod   *ref.Transcript
 	names []string
-	bound [][]byte // caller-owned buffers that were handed to Bind (whole backing buffers)
+	bound []bnd    // caller-owned buffers (whole backing buffers) whose window was handed to Bind
 	ret   [][]byte // slices returned by successful ComputeChallenge calls
 	ev    int
 }
@@ -125,11 +185,12 @@ func newPair(h hashKind, names []string) *pair {
 func (p *pair) bindBuf(name string, buf []byte, lo, hi int) error {
 	v := buf[lo:hi]
 	want := append([]byte(nil), v...)
+	before := append([]byte(nil), buf...)
 	merr := p.mod.Bind(name, want)
 	lerr := p.lib.Bind(name, v)
-	p.bound = append(p.bound, buf)
-	if !bytes.Equal(v, want) {
-		return fmt.Errorf("Bind(%q, %x) modified the caller's slice: now %x", name, want, v)
+	p.bound = append(p.bound, bnd{buf, lo, hi})
+	if !bytes.Equal(buf, before) {
+		return fmt.Errorf("Bind(%q, %x) modified the caller's buffer (the value or the bytes around it / its spare capacity): %x -> %x", name, want, before, buf)
 	}
 	switch merr {
 	case ref.ErrTranscriptUnknown:
@@ -143,9 +204,14 @@ func (p *pair) bindBuf(name string, buf []byte, lo, hi int) error {
 	return nil
 }
 
+// bind hands v over as a window of a larger caller buffer (2 bytes in front, spare capacity behind).
 func (p *pair) bind(name string, v []byte) error {
-	buf := append([]byte(nil), v...)
-	return p.bindBuf(name, buf, 0, len(buf))
+	buf := make([]byte, 2+len(v)+len(v)+3)
+	for i := range buf {
+		buf[i] = 0xEE
+	}
+	copy(buf[2:], v)
+	return p.bindBuf(name, buf, 2, 2+len(v))
 }
 
 func (p *pair) compute(name string) error {
@@ -179,29 +245,75 @@ func (p *pair) compute(name string) error {
 	return nil
 }
 
-func flip(bufs [][]byte, mask byte) bool {
-	any := false
-	for _, b := range bufs {
-		for i := range b {
-			b[i] ^= mask
-			any = true
-		}
+func flip(b []byte, mask byte) {
+	for i := range b {
+		b[i] ^= mask
 	}
-	return any
 }
 
-// mutBound overwrites every buffer that was ever handed to Bind.
+// appendTo is what a caller does who treats s as its own slice: it appends 1, len(s) and 2·len(s)+1 bytes
+// (each time to s itself, so the appends land in s's spare capacity whenever there is any), and finally
+// writes to every byte of the spare capacity directly.
+func appendTo(s []byte, junk byte) {
+	n := len(s)
+	for _, extra := range []int{1, n, 2*n + 1} {
+		_ = append(s, bytes.Repeat([]byte{junk}, extra)...)
+	}
+	full := s[:cap(s)]
+	for i := n; i < len(full); i++ {
+		full[i] ^= junk
+	}
+}
+
+// flipBound / appendBound: the caller overwrites in place, resp. appends to, every slice it handed to Bind
+// (and the rest of the buffers these slices are windows of).
+func (p *pair) flipBound() {
+	for _, b := range p.bound {
+		flip(b.buf, 0xA5)
+	}
+	if len(p.bound) > 0 {
+		p.ev |= evMutation
+	}
+}
+
+func (p *pair) appendBound() {
+	for _, b := range p.bound {
+		appendTo(b.buf[b.lo:b.hi], 0xC3)
+	}
+	if len(p.bound) > 0 {
+		p.ev |= evMutation
+	}
+}
+
+// flipRet / appendRet: the same for every slice ComputeChallenge returned.
+func (p *pair) flipRet() {
+	for _, r := range p.ret {
+		flip(r, 0x5A)
+	}
+	if len(p.ret) > 0 {
+		p.ev |= evMutation
+	}
+}
+
+func (p *pair) appendRet() {
+	for _, r := range p.ret {
+		appendTo(r, 0x3C)
+	}
+	if len(p.ret) > 0 {
+		p.ev |= evMutation
+	}
+}
+
+// mutBound: every caller-side mutation of the slices handed to Bind (append, then overwrite).
 func (p *pair) mutBound() {
-	if flip(p.bound, 0xA5) {
-		p.ev |= evMutation
-	}
+	p.appendBound()
+	p.flipBound()
 }
 
-// mutRet overwrites every slice that ComputeChallenge ever returned.
+// mutRet: every caller-side mutation of the returned challenges (append, then overwrite).
 func (p *pair) mutRet() {
-	if flip(p.ret, 0x5A) {
-		p.ev |= evMutation
-	}
+	p.appendRet()
+	p.flipRet()
 }
 
 // drain is the fixed suffix run after every history: it makes the complete remaining state observable
